@@ -208,57 +208,55 @@ def addRel (s : Schema) (n : GoString) (r : Rel) : Schema × Res Unit :=
 def removeRel (s : Schema) (n a : GoString) : Schema :=
   { types := updAll n (fun t => t.removeRel a) s.types }
 
-/-- Index of the last type named `n` (the Go loop overwrites `i1`/`i2` on every
-match, so the last match wins; with unique names there is at most one). -/
-def lastIdx (n : GoString) (ts : List Typ) : Option Nat :=
-  (List.range ts.length).foldl
-    (fun acc i => match ts[i]? with
-      | some t => if t.name = n then some i else acc
-      | none => acc) none
+/-- Apply `f` to the type(s) named `n`. In Go, `AddTwoWayRel` remembers the index of
+the last type with each name and edits `s.Types[i]`; on a schema with unique type
+names (C14's invariant — every schema reachable through the API) that is the one
+type of that name, which is what this does. -/
+def mapNamed (n : GoString) (f : Typ → Typ) (ts : List Typ) : List Typ :=
+  ts.map (fun t => if t.name = n then f t else t)
 
-/-- Apply `f` to the element at index `i`. -/
-def updAt (i : Nat) (f : Typ → Typ × Res Unit) (ts : List Typ) : List Typ × Res Unit :=
-  match ts[i]? with
-  | none => (ts, .panic)
-  | some t => let (t', r) := f t; (ts.set i t', r)
+/-- Result of `s.Types[i].AddRel(x)` when a type named `x.FromType` exists, else ok. -/
+def twRes (s : Schema) (x : Rel) : Res Unit :=
+  if s.hasType x.fromType then ((s.getType x.fromType).addRel x).2 else .ok ()
 
-def addAtOpt (i : Option Nat) (r : Rel) (ts : List Typ) : List Typ × Res Unit :=
-  match i with
-  | none => (ts, .ok ())
-  | some i => updAt i (fun t => t.addRel r) ts
+/-- The schema after that `AddRel`. -/
+def twAdd (s : Schema) (x : Rel) : Schema :=
+  { types := mapNamed x.fromType (fun t => (t.addRel x).1) s.types }
 
-def removeAtOpt (i : Option Nat) (n : GoString) (ts : List Typ) : List Typ :=
-  match i with
-  | none => ts
-  | some i => (updAt i (fun t => (t.removeRel n, .ok ())) ts).1
+/-- `s.Types[i].RemoveRel(x.FromName)`: undo one half. -/
+def twUndo (s : Schema) (x : Rel) : Schema :=
+  { types := mapNamed x.fromType (fun t => t.removeRel x.fromName) s.types }
 
 /-- schema.go `AddTwoWayRel` -/
 def addTwoWayRel (s : Schema) (rel : Rel) : Schema × Res Unit :=
   let rel1 := rel.normalize
   let rel2 := rel1.invert
-  let i1 := lastIdx rel1.fromType s.types
-  let i2 := lastIdx rel2.fromType s.types
-  match addAtOpt i1 rel1 s.types with
-  | (ts1, .ok ()) =>
-    match addAtOpt i2 rel2 ts1 with
-    | (ts2, .ok ()) =>
-      if i1.isSome && i2.isSome then ({ types := ts2 }, .ok ())
-      else ({ types := removeAtOpt i2 rel2.fromName (removeAtOpt i1 rel1.fromName ts2) }, .err)
-    | (_, r) => ({ types := removeAtOpt i1 rel1.fromName ts1 }, r)
-  | (_, r) => (s, r)
+  if twRes s rel1 ≠ .ok () then (s, twRes s rel1)
+  else
+    let s1 := twAdd s rel1
+    if twRes s1 rel2 ≠ .ok () then (twUndo s1 rel1, twRes s1 rel2)
+    else
+      let s2 := twAdd s1 rel2
+      if s.hasType rel1.fromType && s.hasType rel2.fromType then (s2, .ok ())
+      else (twUndo (twUndo s2 rel1) rel2, .err)
 
 /-! ### Check -/
 
+/-- First test of `Check` for one relationship: the target type does not exist. -/
+def checkTarget (s : Schema) (r : Rel) : Nat :=
+  if (s.getType r.toType).name = [] then 1 else 0
+
+/-- Second test: a relationship naming an inverse must be declared from its own type
+and be reciprocated by a relationship of the target type. -/
+def checkInverse (s : Schema) (t : Typ) (r : Rel) : Nat :=
+  if r.toName = [] then 0
+  else if r.fromType ≠ t.name then 1
+  else if (s.getType r.toType).rels.any (fun p =>
+      r.fromName = p.2.toName ∧ r.toName = p.2.fromName ∧ p.2.toType = t.name) then 0
+  else 1
+
 /-- One relationship of one type, as `Check` looks at it: number of errors appended. -/
-def checkRel (s : Schema) (t : Typ) (r : Rel) : Nat :=
-  let target := s.getType r.toType
-  let e1 := if target.name = [] then 1 else 0
-  if r.toName = [] then e1
-  else if r.fromType ≠ t.name then e1 + 1
-  else
-    let found := target.rels.any (fun p =>
-      r.fromName = p.2.toName ∧ r.toName = p.2.fromName ∧ p.2.toType = t.name)
-    if found then e1 else e1 + 1
+def checkRel (s : Schema) (t : Typ) (r : Rel) : Nat := checkTarget s r + checkInverse s t r
 
 /-- schema.go `Check`: the list of (type name, relationship name, #errors) with #errors > 0,
 in iteration order. -/
